@@ -10,14 +10,16 @@
 (*                                                                         *)
 (* The path tables come from tools/props/c18.py (one JSON record per       *)
 (* extracted snapshot, paths sorted):                                      *)
-(*   np, removable[i] in {0,1}  (0: a numbered instance directory)         *)
+(*   np, removable[i] in {0,1}  (0: a numbered instance directory),        *)
+(*   type[i] (file / symlink / dir) and last[i] (last character of path i) *)
 (*   key    global files and directories; summary and last PU file of a     *)
 (*          CPUID dump                                                     *)
 (*   cand   the other removable paths of the core area (sys/devices/system, *)
 (*          proc, the CPUID dump), rest: the removable paths outside of it *)
 (*   w      share (percent) of the per-snapshot budget of single removals  *)
 (*   classes  lists of removable paths that are the same attribute of      *)
-(*          different instances (same path once digit runs are erased)     *)
+(*          different instances (same path once digit runs and PCI bus     *)
+(*          addresses are erased); the first ncore ones touch the core area *)
 (* Fault sets: none; single paths (striped); pairs of core paths for small *)
 (* snapshots; whole classes (striped); in simulation up to SimMax paths    *)
 (* and possibly a class.                                                   *)
@@ -29,7 +31,8 @@ CONSTANTS TableFile,     \* ndjson file with the path tables
           NKeys,         \* about how many of the key paths are removed on their own per snapshot
           NSingles,      \* about how many single removals per snapshot in the core area ...
           NRest,         \* ... and outside of it
-          NClasses,      \* about how many class removals per snapshot
+          NClasses,      \* about how many class removals per snapshot among the classes of the core area ...
+          NRClasses,     \* ... and among the other classes
           PairMax,       \* pairs are enumerated for snapshots with at most PairMax core paths (0: none)
           Seed,
           FlagSeqs,      \* sequences of flag words run on each tuple
@@ -42,10 +45,13 @@ NSnap == Len(Tabs)
 ASSUME /\ Sel \subseteq 1..NSnap
        /\ \A k \in Sel : LET tab == Tabs[k] IN
             /\ tab.kind \in SnKinds
-            /\ Len(tab.removable) = tab.np
+            /\ Len(tab.removable) = tab.np /\ Len(tab.type) = tab.np /\ Len(tab.last) = tab.np
+            \* the table's removable flags obey the rule of the property (type and last character of every path)
+            /\ \A i \in 1..tab.np : tab.removable[i] = 1 => SnRemovable(tab.type[i], tab.last[i])
             /\ \A j \in DOMAIN tab.key : tab.key[j] \in 1..tab.np /\ tab.removable[tab.key[j]] = 1
             /\ \A j \in DOMAIN tab.cand : tab.cand[j] \in 1..tab.np /\ tab.removable[tab.cand[j]] = 1
             /\ \A j \in DOMAIN tab.rest : tab.rest[j] \in 1..tab.np /\ tab.removable[tab.rest[j]] = 1
+            /\ tab.ncore \in 0..Len(tab.classes)
             /\ \A c \in DOMAIN tab.classes : /\ Len(tab.classes[c]) >= 2
                                              /\ \A j \in DOMAIN tab.classes[c] : tab.removable[tab.classes[c][j]] = 1
        /\ \A fs \in FlagSeqs : \A j \in DOMAIN fs : FlagsLegal(fs[j])
@@ -65,7 +71,12 @@ SingleSel == [k \in 1..NSnap |-> IF k \notin Sel THEN {} ELSE
                 {Tabs[k].key[j] : j \in (IF Small(k) THEN DOMAIN Tabs[k].key ELSE SelIdx(Tabs[k].key, NKeys))}
                 \cup {Tabs[k].cand[j] : j \in (IF Small(k) THEN DOMAIN Tabs[k].cand ELSE SelIdx(Tabs[k].cand, Share(k, NSingles)))}
                 \cup {Tabs[k].rest[j] : j \in SelIdx(Tabs[k].rest, Share(k, NRest))}]
-ClassSel == [k \in 1..NSnap |-> IF k \notin Sel THEN {} ELSE SelIdx(Tabs[k].classes, NClasses)]
+SelRange(lo, hi, n) == IF n <= 0 \/ hi < lo THEN {}
+                       ELSE IF n >= hi - lo + 1 THEN lo..hi
+                       ELSE LET stride == (hi - lo + 1) \div n IN {j \in lo..hi : (j + Seed) % stride = 0}
+\* the first ncore classes have a member in the core area
+ClassSel == [k \in 1..NSnap |-> IF k \notin Sel THEN {} ELSE
+               SelRange(1, Tabs[k].ncore, NClasses) \cup SelRange(Tabs[k].ncore + 1, Len(Tabs[k].classes), NRClasses)]
 CandSet == [k \in 1..NSnap |-> IF k \notin Sel THEN {} ELSE SeqSet(Tabs[k].cand) \cup SeqSet(Tabs[k].key)]
 RestSet == [k \in 1..NSnap |-> IF k \notin Sel THEN {} ELSE SeqSet(Tabs[k].rest)]
 
